@@ -226,7 +226,7 @@ def check_cnf_text(text, n, clauses, expected_sat, d, res, layout):
         f.write(text)
     if os.path.exists(proof):
         os.remove(proof)
-    rc, out, err = run_cli([path, "--proof-path", proof])
+    rc, out, err = run_cli([path, "--proof-path", proof] + list(res["config"].get("options", [])))
     count(res, "cli_runs")
     if rc == "timeout":
         fail(res, "timeout", "layout %s: no answer within 20 s" % layout)
@@ -263,14 +263,35 @@ def check_cnf_text(text, n, clauses, expected_sat, d, res, layout):
     return None
 
 
+def cnf_options(r):
+    """Solver options for a CNF run: default in half of the cases, otherwise small learned-clause database
+    limits (so that database reduction really happens), minimisation off, restart variants. Restarts keep
+    their default warm-up, so the search always makes progress."""
+    if r.random() < 0.5:
+        return []
+    o = ["--learning-max-num-clauses", str(r.choice([0, 1, 5, 20])), "--learning-lbd-threshold", str(r.choice([0, 1, 2, 5])),
+         "--learning-sorting-strategy", r.choice(["activity", "lbd"])]
+    if r.random() < 0.5:
+        o.append("--no-learning-minimise")
+    if r.random() < 0.3:
+        o.append("--no-restarts")
+    o += ["-r", str(r.randint(0, 1000))]
+    return o
+
+
 def case_cnf(r, i, d):
     n, clauses, classes = gen_cnf(r)
     layouts = cnf_layouts(r, n, clauses)
-    res = result(i, classes, layouts[0][1], ["--proof-path", "<proof>"])
+    opts = cnf_options(r)
+    if opts:
+        classes = classes + ["cnf.options"]
+    res = result(i, classes, layouts[0][1], ["--proof-path", "<proof>"] + opts)
+    res["config"]["options"] = opts
     expected = cnf_brute(n, clauses)
     verdicts = {}
     for name, text in layouts:
-        lres = result(i, classes + ["layout." + name], text, ["--proof-path", "<proof>"])
+        lres = result(i, classes + ["layout." + name], text, ["--proof-path", "<proof>"] + opts)
+        lres["config"]["options"] = opts
         verdicts[name] = check_cnf_text(text, n, clauses, expected, d, lres, name)
         for k, v in lres["counters"].items():
             count(res, k, v)
@@ -290,6 +311,7 @@ def replay_cnf(data, d):
     text = data["case"]["text"]
     n, clauses = data["case"]["n"], data["case"]["clauses"]
     res = result(0, data.get("classes", []), text, [])
+    res["config"]["options"] = (data.get("config") or {}).get("options", [])
     check_cnf_text(text, n, clauses, cnf_brute(n, clauses), d, res, data["case"].get("layout", "recorded"))
     return res
 
@@ -670,9 +692,11 @@ def gen_fzn(r, kinds_filter=None):
     ann = ""
     if r.random() < 0.4:
         varsel = r.choice(["input_order", "first_fail", "anti_first_fail", "smallest", "largest", "max_regret"])
-        valsel = r.choice(["indomain_min", "indomain_max", "indomain_median", "indomain_middle", "indomain_split", "indomain_reverse_split", "indomain", "outdomain_min", "outdomain_max"])
-        if r.random() < 0.3 and bv:
-            ann = " :: bool_search([%s], %s, %s, complete)" % (",".join(bv), r.choice(["input_order", "first_fail"]), r.choice(["indomain_min", "indomain_max"]))
+        allvals = ["indomain_min", "indomain_max", "indomain_median", "indomain_middle", "indomain_split", "indomain_reverse_split", "indomain", "indomain_interval",
+                   "indomain_random", "indomain_split_random", "outdomain_min", "outdomain_max", "outdomain_median", "outdomain_random"]
+        valsel = r.choice(allvals)
+        if r.random() < 0.4 and bv:
+            ann = " :: bool_search([%s], %s, %s, complete)" % (",".join(bv), r.choice(["input_order", "first_fail", "anti_first_fail", "smallest", "largest", "max_regret"]), r.choice(allvals))
         else:
             ann = " :: int_search([%s], %s, %s, complete)" % (",".join(iv), varsel, valsel)
         m.classes.add("fzn.search_annotation")
